@@ -4,6 +4,16 @@
 #include <fcppt/function_impl.hpp>
 #include <fcppt/move_if_rvalue.hpp>
 #include <fcppt/either/apply.hpp>
+#include <fcppt/either/construct.hpp>
+#include <fcppt/either/error.hpp>
+#include <fcppt/either/error_from_optional.hpp>
+#include <fcppt/either/loop.hpp>
+#include <fcppt/either/make_failure.hpp>
+#include <fcppt/either/make_success.hpp>
+#include <fcppt/either/no_error.hpp>
+#include <fcppt/either/sequence_error.hpp>
+#include <fcppt/either/to_exception.hpp>
+#include <fcppt/either/try_call.hpp>
 #include <fcppt/either/bind.hpp>
 #include <fcppt/either/failure_opt.hpp>
 #include <fcppt/either/first_success.hpp>
@@ -72,19 +82,6 @@ std::string eith_tag(eith<T> const &_e)
 {
   return _e.has_success() ? "S" : "F";
 }
-
-// fail<T> -> T and T -> T, moving an rvalue through and deriving from an lvalue
-struct to_tok
-{
-  template <typename U>
-  auto operator()(U &&_u) const
-  {
-    if constexpr (requires { _u.t; })
-      return thru{}(fcppt::move_if_rvalue<U>(_u.t));
-    else
-      return thru{}(std::forward<U>(_u));
-  }
-};
 
 template <typename T>
 std::string op_eith1(std::string const &_op, line_t const &L)
@@ -187,13 +184,18 @@ std::string op_eithapply2(line_t const &L)
   mark(a);
   mark(b);
   g_log.clear();
-  eith<T> const r{with_cat<T::copyable>(
+  fcppt::either::object<fail<T>, pair2<T>> const r{with_cat<T::copyable>(
       L.cat(0),
       a,
       [&](auto &&x)
-      { return with_cat<T::copyable>(L.cat(1), b, [&](auto &&y) { return fcppt::either::apply(first_of_two{}, FWD(x), FWD(y)); }); })};
+      { return with_cat<T::copyable>(L.cat(1), b, [&](auto &&y) { return fcppt::either::apply(both{}, FWD(x), FWD(y)); }); })};
   event_log const log{g_log};
-  return finish(eith_tag(r), eith_slots(r), {eith_slots(a), eith_slots(b)}, log);
+  slots_t sr;
+  if (r.has_success())
+    add_pair(sr, r.get_success_unsafe());
+  else
+    sr.add(r.get_failure_unsafe().t);
+  return finish(r.has_success() ? "S" : "F", sr.str(), {eith_slots(a), eith_slots(b)}, log);
 }
 
 template <typename T>
@@ -316,29 +318,13 @@ std::string op_var(std::string const &_op, line_t const &L)
     auto u{mk_var<T>(L.args[1].ids[0], L.par[1])};
     mark(var_tok(u));
     g_log.clear();
-    T const r{with_cat<true>(
+    pair2<T> const r{with_cat<true>(
         L.cat(0),
         v,
-        [&](auto &&x)
-        {
-          return with_cat<true>(
-              L.cat(1),
-              u,
-              [&](auto &&y)
-              {
-                return fcppt::variant::apply(
-                    [](auto &&a, auto &&b)
-                    {
-                      b.read();
-                      return to_tok{}(FWD(a));
-                    },
-                    FWD(x),
-                    FWD(y));
-              });
-        })};
+        [&](auto &&x) { return with_cat<true>(L.cat(1), u, [&](auto &&y) { return fcppt::variant::apply(both{}, FWD(x), FWD(y)); }); })};
     event_log const log{g_log};
     slots_t sr;
-    sr.add(r);
+    add_pair(sr, r);
     return finish("-", sr.str(), {var_slots(v), var_slots(u)}, log);
   }
   if (_op == "vartoopt")
@@ -368,6 +354,184 @@ std::string op_var(std::string const &_op, line_t const &L)
   throw bad_op{};
 }
 
+// ---------------------------------------------------------------- either: constructors, construct, try_call, to_exception, ...
+
+template <typename T>
+struct exc_with
+{
+  T t;
+};
+
+template <typename T>
+std::string op_eith_more(std::string const &_op, line_t const &L)
+{
+  if (_op == "eithmakesucc" || _op == "eithmakefail" || _op == "eithctor")
+  {
+    need(L.args.size() == 1 && L.n(0) == 1);
+    int const side{_op == "eithmakesucc" ? 1 : _op == "eithmakefail" ? 0 : (need(L.par.size() == 1), L.par[0])};
+    need((side == 0 || side == 1) && (_op == "eithctor" || L.par.empty()));
+    T x{L.args[0].ids[0]};
+    fail<T> f{T{L.args[0].ids[0]}};
+    mark(x);
+    mark(f.t);
+    g_log.clear();
+    eith<T> const r{
+        side == 1 ? with_cat<T::copyable>(
+                        L.cat(0),
+                        x,
+                        [&](auto &&v)
+                        {
+                          if (_op == "eithctor")
+                            return eith<T>{FWD(v)};
+                          return fcppt::either::make_success<fail<T>>(FWD(v));
+                        })
+                  : with_cat<T::copyable>(
+                        L.cat(0),
+                        f,
+                        [&](auto &&v)
+                        {
+                          if (_op == "eithctor")
+                            return eith<T>{FWD(v)};
+                          return fcppt::either::make_failure<T>(FWD(v));
+                        })};
+    event_log const log{g_log};
+    slots_t sx;
+    sx.add(side == 1 ? x : f.t);
+    return finish(eith_tag(r), eith_slots(r), {sx.str()}, log);
+  }
+  if (_op == "eithconstruct" || _op == "eithtrycall")
+  {
+    need(L.args.empty() && L.par.size() == 1 && (L.par[0] == 0 || L.par[0] == 1));
+    bool const ok{L.par[0] == 1};
+    g_log.clear();
+    eith<T> const r{
+        _op == "eithconstruct"
+            ? fcppt::either::construct(
+                  ok, [] { return T{1000}; }, [] { return fail<T>{T{1001}}; })
+            : fcppt::either::try_call<std::runtime_error>(
+                  [ok]
+                  {
+                    if (!ok)
+                      throw std::runtime_error{"no"};
+                    return T{1000};
+                  },
+                  [](std::runtime_error const &) { return fail<T>{T{1001}}; })};
+    event_log const log{g_log};
+    return finish(eith_tag(r), eith_slots(r), {}, log);
+  }
+  if (_op == "eithtoexc")
+  {
+    need(L.args.size() == 1 && L.n(0) == 1 && L.par.size() == 1);
+    auto e{mk_eith<T>(L.args[0].ids[0], L.par[0])};
+    mark(e);
+    g_log.clear();
+    try
+    {
+      T const r{with_cat<T::copyable>(
+          L.cat(0), e, [](auto &&x) { return fcppt::either::to_exception(FWD(x), [](auto &&f) { return exc_with<T>{to_tok{}(FWD(f))}; }); })};
+      event_log const log{g_log};
+      slots_t sr;
+      sr.add(r);
+      return finish("-", sr.str(), {eith_slots(e)}, log);
+    }
+    catch (exc_with<T> const &x)
+    {
+      event_log const log{g_log};
+      slots_t sr;
+      sr.add(x.t);
+      return finish("exc", sr.str(), {eith_slots(e)}, log);
+    }
+  }
+  if (_op == "eitherrfromopt")
+  {
+    need(L.args.size() == 1 && L.par.empty());
+    auto o{mk_opt<T>(L.args[0])};
+    mark(o);
+    g_log.clear();
+    fcppt::either::error<T> const r{with_cat<T::copyable>(L.cat(0), o, [](auto &&x) { return fcppt::either::error_from_optional(FWD(x)); })};
+    event_log const log{g_log};
+    slots_t sr;
+    if (r.has_failure())
+      sr.add(r.get_failure_unsafe());
+    return finish(r.has_failure() ? "J" : "N", sr.str(), {opt_slots(o)}, log);
+  }
+  if (_op == "eithseqerr")
+  {
+    need(L.args.size() == 1 && L.par.size() == L.n(0));
+    auto v{mk_vec<T>(L.args[0])};
+    mark(v);
+    std::size_t idx{0};
+    g_log.clear();
+    using err = fcppt::either::error<fail<T>>;
+    err const r{with_cat<true>(
+        L.cat(0),
+        v,
+        [&](auto &&c)
+        {
+          return fcppt::either::sequence_error(
+              FWD(c),
+              [&idx, &L](auto &&e) -> err
+              {
+                int const k{L.par.at(idx++)};
+                need(k == 0 || k == 1);
+                if (k == 1)
+                {
+                  e.read();
+                  return err{fcppt::either::no_error{}};
+                }
+                return err{fail<T>{thru{}(FWD(e))}};
+              });
+        })};
+    event_log const log{g_log};
+    slots_t sr;
+    if (r.has_failure())
+      sr.add(r.get_failure_unsafe().t);
+    return finish(r.has_success() ? "S" : "F", sr.str(), {slots(v)}, log);
+  }
+  if (_op == "eithloop")
+  {
+    need(L.args.empty() && L.par.size() == 1 && L.par[0] >= 0 && L.par[0] <= 64);
+    int const k{L.par[0]};
+    int count{0};
+    std::vector<T> sink;
+    sink.reserve(80);
+    g_log.clear();
+    fail<T> const f{fcppt::either::loop(
+        [&count, k]
+        {
+          int const id{1000 + count};
+          return count++ < k ? eith<T>{T{id}} : eith<T>{fail<T>{T{id}}};
+        },
+        [&sink](T &&s) { sink.push_back(std::move(s)); })};
+    event_log const log{g_log};
+    slots_t sr;
+    sr.add_range(sink);
+    sr.add(f.t);
+    return finish("-", sr.str(), {}, log);
+  }
+  if (_op == "varctor")
+  {
+    need(L.args.size() == 1 && L.n(0) == 1 && L.par.size() == 1 && L.par[0] >= 0 && L.par[0] <= 2);
+    int const id{L.args[0].ids[0]};
+    T x{id};
+    w1<T> y{T{id}};
+    w2<T> z{T{id}};
+    mark(x);
+    mark(y.t);
+    mark(z.t);
+    g_log.clear();
+    auto const mk{[](auto &&v) { return var3<T>{FWD(v)}; }};
+    var3<T> r{L.par[0] == 0   ? with_cat<T::copyable>(L.cat(0), x, mk)
+              : L.par[0] == 1 ? with_cat<T::copyable>(L.cat(0), y, mk)
+                              : with_cat<T::copyable>(L.cat(0), z, mk)};
+    event_log const log{g_log};
+    slots_t sx;
+    sx.add(L.par[0] == 0 ? x : L.par[0] == 1 ? y.t : z.t);
+    return finish("A" + std::to_string(r.type_index()), var_slots(r), {sx.str()}, log);
+  }
+  throw bad_op{};
+}
+
 template <typename T>
 bool dispatch(std::string const &_op, line_t const &L, std::string &_out)
 {
@@ -393,6 +557,9 @@ bool dispatch(std::string const &_op, line_t const &L, std::string &_out)
     return (_out = op_eithseq<T>(L), true);
   if (_op == "eithfirst")
     return (_out = op_eithfirst<T>(L), true);
+  if (_op == "eithmakesucc" || _op == "eithmakefail" || _op == "eithctor" || _op == "eithconstruct" || _op == "eithtrycall" ||
+      _op == "eithtoexc" || _op == "eitherrfromopt" || _op == "eithseqerr" || _op == "eithloop" || _op == "varctor")
+    return (_out = op_eith_more<T>(_op, L), true);
   if (_op == "varmatch")
     return (_out = op_var<T>(_op, L), true);
   if (_op == "varapply")
